@@ -10,6 +10,8 @@ package main
 
 import (
 	"bytes"
+	"context"
+	"errors"
 	"flag"
 	"fmt"
 	"math"
@@ -88,7 +90,10 @@ type exportRec struct {
 }
 type rowRec struct{ Cols []string }
 
+type boundRec struct{ Field, Len, Expect string }
+
 type casesFile struct {
+	Bounds     []boundRec
 	MaxLen     int
 	Scalars    []scalarRec
 	Strings    stringsRec
@@ -557,8 +562,35 @@ type encoded struct {
 	tv     sql.TypedValue
 }
 
-func guard(what string, f func()) bool {
-	p, h, msg := vh.Guard(20*time.Second, f)
+// step runs one call of the real code on an in-domain input.  Whatever goes wrong there is a verdict about the
+// real code, never a harness fault:
+//   kind "encode": the constructor / encoder / commit refuses a value of the domain  -> <codec>:refuses-valid-value:<field>:<class>
+//   kind "decode": a decoder / read-back rejects what the encoder or commit accepted  -> <codec>:roundtrip:decoder-rejects-encoder-output:<field>:<class>
+//   missed deadline (or the context deadline of the call)                             -> <codec>:roundtrip:commit-or-read-back-hangs:<field>:<class>
+func step(codec, kind, field, cls string, d time.Duration, replay interface{}, f func() error) bool {
+	var err error
+	p, h, msg := vh.Guard(d, func() { err = f() })
+	res.Evaluations++
+	what := fmt.Sprintf("%s on %s (%s)", codec, field, cls)
+	switch {
+	case p:
+		res.Violate(fmt.Sprintf("%s:panic:%s:%s", codec, field, cls), what+" panics: "+strings.SplitN(msg, "\n", 2)[0], replay)
+	case h || errors.Is(err, context.DeadlineExceeded):
+		res.Violate(fmt.Sprintf("%s:roundtrip:commit-or-read-back-hangs:%s:%s", codec, field, cls), fmt.Sprintf("%s does not return within %s (%v)", what, d, err), replay)
+	case err != nil && kind == "encode":
+		res.Violate(fmt.Sprintf("%s:refuses-valid-value:%s:%s", codec, field, cls), what+" is refused: "+err.Error(), replay)
+	case err != nil:
+		res.Violate(fmt.Sprintf("%s:roundtrip:decoder-rejects-encoder-output:%s:%s", codec, field, cls), what+": what was accepted when written cannot be read back: "+err.Error(), replay)
+	default:
+		return true
+	}
+	return false
+}
+
+func guard(what string, f func()) bool { return guardFor(60*time.Second, what, f) }
+
+func guardFor(d time.Duration, what string, f func()) bool {
+	p, h, msg := vh.Guard(d, f)
 	if p || h {
 		res.Violate(what+":panic-or-hang", msg, nil)
 		return false
@@ -735,7 +767,7 @@ func main() {
 	flag.Int64Var(&seed, "seed", 1, "seed")
 	dir := flag.String("dir", "", "scratch directory")
 	variants := flag.Int("variants", 4, "number of concretisations per class (0 = representatives, others random)")
-	mode := flag.String("mode", "all", "all | pure | store | engine")
+	mode := flag.String("mode", "all", "all | pure | store | bounds | engine")
 	flag.BoolVar(&selftest, "selftest", false, "corrupt one expected relation (binding self-test)")
 	flag.Parse()
 
@@ -768,6 +800,9 @@ func main() {
 	}
 	if *mode == "all" || *mode == "store" {
 		runExports(&cf, *dir)
+	}
+	if *mode == "all" || *mode == "bounds" {
+		runBounds(&cf, *dir)
 	}
 	if *mode == "all" || *mode == "engine" {
 		runEngine(&cf, *dir)
